@@ -345,7 +345,7 @@ package ir
 //@ rec spec aggok(t types.Type, idx []uint64) bool reads {elems(uint64), types.ArrayType.ElemType, types.StructType.Fields, elems(types.Type)} = len(idx) == 0 || ((typeis(t, "*types.ArrayType") || (typeis(t, "*types.StructType") && idx[0] < len(cast(t, "*types.StructType").Fields))) && aggok(astep(t, idx[0]), idx[1:len(idx)]))
 //@ rec spec aggty(t types.Type, idx []uint64) types.Type reads {elems(uint64), types.ArrayType.ElemType, types.StructType.Fields, elems(types.Type)} = ite(len(idx) == 0, t, aggty(astep(t, idx[0]), idx[1:len(idx)]))
 //@ func aggregateElemType
-//@   props C06
+//@   props C06 C03
 //@   requires aggok(t, indices)
 //@   assigns nothing
 //@   ensures result == aggty(t, indices)
